@@ -37,6 +37,25 @@ var (
 	onceClientHandler = &sync.Once{}
 )
 
+var (
+	openHooksLock sync.RWMutex
+	openHooks     []func(session getty.Session)
+)
+
+// RegisterSessionOpenHook registers f to be called (on the session's announce goroutine) for every new
+// session after the transaction manager has been announced on it
+func RegisterSessionOpenHook(f func(session getty.Session)) {
+	openHooksLock.Lock()
+	defer openHooksLock.Unlock()
+	openHooks = append(openHooks, f)
+}
+
+func sessionOpenHooks() []func(session getty.Session) {
+	openHooksLock.RLock()
+	defer openHooksLock.RUnlock()
+	return append([]func(session getty.Session){}, openHooks...)
+}
+
 type gettyClientHandler struct {
 	idGenerator  *atomic.Uint32
 	processorMap map[message.MessageType]processor.RemotingProcessor
@@ -64,11 +83,16 @@ func (g *gettyClientHandler) OnOpen(session getty.Session) error {
 			ApplicationId:           conf.ApplicationID,
 			TransactionServiceGroup: conf.TxServiceGroup,
 		}}
-		err := GetGettyRemotingClient().SendAsyncRequest(request)
+		// announce on the new session itself, not on whichever session the load balancer picks
+		err := GetGettyRemotingClient().SendAsyncRequestOnSession(session, request)
 		if err != nil {
 			log.Errorf("OnOpen error: {%#v}", err.Error())
 			sessionManager.releaseSession(session)
 			return
+		}
+		// let the resource managers announce their resources on the new session (reconnect)
+		for _, hook := range sessionOpenHooks() {
+			hook(session)
 		}
 	}()
 
